@@ -313,7 +313,11 @@ class ExprMixin(object):
         return self._module_stack[-1]
 
     def ev_Name(self, n, st):
-        return [(self.lookup(n.id, st), st)]
+        v = self.lookup(n.id, st)
+        if isinstance(v, Unknown):
+            raise Unsupported('variable %r is used in a loop iteration (or after the loop) without being assigned first on this path; '
+                              'its value comes from an earlier iteration and is not described by the invariant' % n.id)
+        return [(v, st)]
 
     def ev_Tuple(self, n, st):
         return self._ev_seq(n.elts, st, lambda items: Tup(items))
@@ -1140,14 +1144,20 @@ class StmtMixin(object):
             if v is None or isinstance(v, Ref): continue
             st.env[nm] = self.havoc_value(v, nm + tag)
         for cid in cell_ids:
-            st.cells[cid] = self.havoc_value(st.cells[cid], 'cell%d%s' % (cid, tag))
+            c = st.cells[cid]
+            if isinstance(c, (Rec, PyDict)):
+                continue    # records/keyword tables passed to calls inside the loop: callees under contract declare what they modify
+            st.cells[cid] = self.havoc_value(c, 'cell%d%s' % (cid, tag))
         # names assigned in the loop that currently hold a Ref to a fresh object (l = []) are re-bound per iteration;
         # their cells are havocked as well
         for nm in names:
             v = st.env.get(nm)
-            if isinstance(v, Ref) and v.id not in cell_ids:
-                nc = st.new_cell(self.havoc_value(st.cells[v.id], nm + tag))
-                st.env[nm] = nc
+            if isinstance(v, Ref):
+                content = st.cells[v.id]
+                if isinstance(content, (PyList, SeqV, DocObj, SymDict, SymSet)):
+                    if v.id not in cell_ids: st.env[nm] = st.new_cell(self.havoc_value(content, nm + tag))
+                else:
+                    st.env[nm] = Unknown(nm)       # e.g. an object reference re-bound inside the loop
 
     def havoc_value(self, v, nm):
         if isinstance(v, Sc): return Sc(fresh(v.z.sort(), nm), v.py)
@@ -1166,8 +1176,10 @@ class StmtMixin(object):
         if isinstance(v, SymDict):
             return SymDict(fresh(v.has.sort(), nm + '.has'), fresh(v.get.sort(), nm + '.get'), v.kty, v.vty)
         if isinstance(v, SymSet): return SymSet(fresh(v.has.sort(), nm + '.has'), v.kty)
-        if isinstance(v, (NoneV, PyStr, Closure, ClassV, FuncV, ModuleV, Builtin, PyDict, Tup, Rec, LocalClass, Opt)):
-            return v     # immutable or not modelled as changing
+        if isinstance(v, (ClassV, FuncV, ModuleV, Builtin, LocalClass)):
+            return v     # names of classes/functions/modules are not re-bound in the handled subset
+        if isinstance(v, (NoneV, PyStr, Closure, PyDict, Tup, Rec, Opt, TupTerm, Unknown, Dual, PySet)):
+            return Unknown(nm)   # re-bound in the loop with a value whose shape is not fixed by its type
         raise Unsupported('havoc of %r' % (v,))
 
     def invariant_loop(self, s, lo, hi, elem, st):
